@@ -34,13 +34,14 @@ RULE = ("case = seeded continuum (2..5 annotators, grid/jitter/nested/staircase/
 ASSUMPTIONS = [
     "pair costs are taken from the dissimilarity's own compiled kernel (C04 is out of scope for this technique)",
     "oracle sizes bounded: DP <= 12 units, MILP <= 3000 candidate unitary alignments (<= 30000 for the dense family)",
+    "continua with more than 8000 candidate tuples are aligned under CBC only (GLPK_MI can need minutes there)",
 ]
 COMPONENTS = {"real": common.REAL_COMPONENTS + ["scipy.optimize.milp (HiGHS) - oracle only"],
               "stub": ["cylp importability / CBC solve success (fault injection)"]}
 
 
 def gen(ch, tier):
-    if ch.coin(0.02):
+    if ch.coin(0.004 if tier == "quick" else 0.02):
         # dense overlap: 10000+ candidates (buffer growth in the candidate enumeration), oracle = independent MILP
         shape = ch.choice([(4, 11), (3, 23), (5, 6)])
         return ac.gen_align_case(ch, min_annot=shape[0], max_annot=shape[0], max_units=shape[1], max_total=120,
@@ -61,7 +62,7 @@ def run(case):
     violations = []
     fired = 0
     vals = {}
-    for cfg in ac.CONFIGS:
+    for cfg in ac.configs_for(case):
         name = ac.config_name(cfg)
         al, err, flt = ac.call_under(cfg, lambda: continuum.get_best_alignment(dissim))
         if cfg["mode"] != "none":
